@@ -436,6 +436,24 @@ def r4_class_attr_writes(ctx, rid: str = "C15.R4") -> None:
             continue
         # try/finally structure
         tries = [t for t in walk_no_nested(fi.node) if isinstance(t, ast.Try) and t.finalbody]
+        # a context manager that names the swapped attributes through a table (setattr with a computed name) is decided by
+        # interpretation: every attribute is back after a normal and after an exceptional exit of the with-body
+        dynamic = [(node, st) for node, st in writes if isinstance(node, ast.Call) and not isinstance(node.args[1], ast.Constant)]
+        if dynamic and any("contextmanager" in d for d in fi.decorators) and fi.cls is not None:
+            from .standins import class_swap_outcome
+            o = class_swap_outcome(ctx, fi.cls.qual, fi.name)
+            for node, st in dynamic:
+                n_sites += 1
+                loc = f"{fi.module.relpath}:{st.lineno}"
+                if any(_contains(t.finalbody, st) for t in tries):
+                    continue
+                if o.yielded and o.at_yield and o.restored_normal and o.restored_exception and o.exception_propagates and not o.off_changes and o.off_yielded:
+                    for an in sorted(o.at_yield):
+                        r.ok(rid, q, f"{an}: swapped while the manager is active, back after a normal and after an exceptional exit (interpreted; {short(st, 60)})", loc)
+                else:
+                    why = "not restored after a normal exit" if not o.restored_normal else "not restored when the with-body raises" if not o.restored_exception else "the exception of the with-body is swallowed" if not o.exception_propagates else "attributes change although the manager is switched off" if o.off_changes else "the manager does not yield"
+                    r.violation(rid, q, short(st, 120), f"class attributes are swapped at run time and {why}: the change outlives the call and every later conversion by any instance sees it", loc)
+            writes = [w for w in writes if w not in dynamic]
         for node, st in writes:
             n_sites += 1
             attr = node.attr if isinstance(node, ast.Attribute) else unparse(node.args[1])
